@@ -40,10 +40,53 @@ def _is_orefa_root(case, q, model, observed):
     return case.startswith("orefafs ")
 
 
+def _run_case(ctx, stream, case, binp):
+    """Execute one case line through the harness (replay) and the driver; returns (model, observed) or None."""
+    name = stream["name"] + "-shrink"
+    rf = os.path.join(ctx.dir, name + ".replayin")
+    with open(rf, "w") as f:
+        f.write(case + "\n")
+    rc, out = sh([binp, stream["harness"], "-seed", str(ctx.seed), "-tier", ctx.tier, "-out", ctx.dir, "-name", name, "-replay", rf],
+                 cwd=ctx.dir, env=GOENV, timeout=120)
+    if rc != 0:
+        return None
+    base = os.path.join(ctx.dir, name)
+    rc, out = sh("%s/driver %s < %s.cases > %s.model" % (ML, stream["driver"], base, base), timeout=120)
+    if rc != 0:
+        return None
+    m = open(base + ".model").read().rstrip("\n")
+    o = open(base + ".observed").read().rstrip("\n")
+    return m, o
+
+
+def _shrink(ctx, stream, hd, ops, q, binp):
+    """Greedy removal of tree-building operations (chunks, then single operations) while the query still differs.
+    Runs the already built harness and driver directly: a step costs a few tens of milliseconds."""
+    def bad(ops_):
+        r = _run_case(ctx, stream, " | ".join([hd] + ops_ + [q]), binp)
+        return r is not None and r[0] != r[1] and "INVALID" not in r[1] and "BUILDFAILED" not in r[1]
+    if not bad(ops):
+        return ops
+    chunk = max(1, len(ops) // 2)
+    budget = 400
+    while chunk >= 1 and budget > 0:
+        i = 0
+        while i < len(ops) and budget > 0:
+            cand = ops[:i] + ops[i + chunk:]
+            budget -= 1
+            if bad(cand):
+                ops = cand
+            else:
+                i += chunk
+        chunk //= 2
+    return ops
+
+
 def _report(ctx, stream, mm, what, classify=None):
-    """Reduce mismatching lines to single-query cases, classify, shrink and report (at most 2 violations per stream)."""
+    """Reduce mismatching lines to single-query cases, shrink the history and report (at most 2 violations per stream)."""
     seen = 0
     kinds = {}
+    ok, out, binp = build_go(stream.get("tags", ""))
     for (i, c, m, o) in mm:
         d = _first_diff(c, m, o)
         if d is None:
@@ -56,15 +99,15 @@ def _report(ctx, stream, mm, what, classify=None):
             continue
         seen += 1
         if seen > 2:
-            continue
-        case = " | ".join([hd] + ops + [q])
-        case = ctx.shrink(stream["name"], stream["harness"], stream["driver"], case, tags=stream.get("tags", ""),
-                          still_bad=lambda t: True)
-        if not case.split(" | ")[-1].startswith("Q "):
+            break
+        if q.startswith("Q ") and ok:
+            ops = _shrink(ctx, stream, hd, ops, q, binp)
             case = " | ".join([hd] + ops + [q])
-        mm2 = ctx.stream(stream["name"] + "-shrink", stream["harness"], stream["driver"], tags=stream.get("tags", ""), replay_lines=[case])
-        if mm2:
-            _, _, x, y = mm2[0]
+            r = _run_case(ctx, stream, case, binp)
+            if r is not None and r[0] != r[1]:
+                x, y = r
+        else:
+            case = c
         ctx.violation(stream["name"], what % len(mm), {"stream": stream, "case": case, "query": q, "model": x, "observed": y,
                                                      "mismatching_lines_in_run": len(mm)})
     return kinds
@@ -139,11 +182,15 @@ def check_C14(ctx):
             return
         ctx.coverage["streams"]["walkglob-corpus"] = {"lines": len(cl), "mismatches": len(mm)}
         _report(ctx, st, mm, "WalkDir/Glob/ReadDir/helpers of avfs differ from the model of vfs.go on %d lines of the witness corpus (corpus/C14)")
+        if ctx.violations:
+            return      # the generated streams would only repeat it
     # ---- A: implementation versus the model of the implementation
     mm = ctx.stream("walkglob", "walkglob", "walkglob")
     if mm is None:
         return
     _report(ctx, st, mm, "WalkDir/Glob/ReadDir/helpers of avfs differ from the model of vfs.go (proved equal to Go's filepath.WalkDir/Glob algorithms on the same primitives, theorems C14_walk/C14_glob) on %d case lines")
+    if ctx.violations:
+        return
     if ctx.tier == "thorough":
         # the build with avfs' own path functions (Match, Join, Split, Clean of vfs_ostype_on.go)
         stt = {"name": "walkglob-tagged", "harness": "walkglob", "driver": "walkglob", "tags": "avfs_setostype"}
@@ -180,7 +227,7 @@ def check_C14(ctx):
         ctx.broken("spec-vs-oracle:walkglobo", "the Go reference model over Posix.v disagrees with filepath.WalkDir/Glob/os.ReadDir in the chroot on %d case lines (machinery defect, not a finding); first: %r" % (len(B), d),
                    json.dumps({"case": c, "first_diff": d})[:3000])
     _report(ctx, sta, A, "avfs on MemFS differs from the model of vfs.go on %d case lines of the oracle stream")
-    if not B:
+    if not B and not A:
         _report(ctx, sto, O, "WalkDir/Glob/ReadDir of avfs on MemFS differ from filepath.WalkDir/filepath.Glob/os.ReadDir on the identical tree on tmpfs on %d case lines")
 
 
